@@ -1,5 +1,6 @@
 """SMT universe: sorts, sort descriptors, value wrappers, discharge helpers."""
 from __future__ import annotations
+import re
 import z3, re, time, subprocess, tempfile, os
 from typing import Any, Dict, List, Optional, Tuple
 
@@ -182,7 +183,8 @@ def seq_nth(s, j):
     if z3.is_string(s):
         return s[j]
     es = s.sort().basis()
-    return ufunc("nth." + es.name(), s.sort(), Int, es)(s, j)
+    nm = es.name() if es.name() != "Seq" else re.sub(r"[^A-Za-z0-9_]+", "_", str(es))
+    return ufunc("nth." + nm, s.sort(), Int, es)(s, j)
 
 
 def pow2_term(e):
@@ -231,7 +233,7 @@ def _decl_name_raw(d):
     return r
 
 
-def raw_find(f, names, skip_quant=False):
+def raw_find(f, names, skip_quant=False, prefixes=None):
     """ExprRefs of all applications in f whose declaration name is in `names`."""
     out = {}
     seen = set()
@@ -249,7 +251,8 @@ def raw_find(f, names, skip_quant=False):
             n = lib.Z3_get_app_num_args(ctx, app)
             if n:
                 d = lib.Z3_get_app_decl(ctx, app)
-                if _decl_name_raw(d) in names:
+                dn = _decl_name_raw(d)
+                if dn in names or (prefixes and dn.startswith(prefixes)):
                     out[i] = a
                 for j in range(n):
                     stack.append(lib.Z3_get_app_arg(ctx, app, j))
